@@ -44,12 +44,15 @@ DIMS = {
                "backend": [None, "numpy", "jax"], "out": [None, "result", "sub/other.py", "name.with.dots"], "verbose": [False, True],
                "config": [None, ("cwd", {"delta": 0.25}), ("file", {"delta": 0.25}), ("cwd", {"scheme": ["generalized_rush_larsen"]}), ("cwd", {"stiff_states": ["y"], "scheme": ["hybrid_rush_larsen"]}),
                           ("cwd", {"python": {"format": "none"}}), ("cwd", {"python": {"backend": "jax"}}), ("file", {"verbose": True}), ("cwd", {"c": {"format": "none", "to": ".c"}}), ("file", {"stiff_states": ["x"], "scheme": ["hybrid_rush_larsen", "explicit_euler"]}),
-                          ("file", {"delta": 0.125, "scheme": ["generalized_rush_larsen"]}), ("file", {"python": {"format": "none", "backend": "jax"}})]},
+                          ("file", {"delta": 0.125, "scheme": ["generalized_rush_larsen"]}), ("file", {"python": {"format": "none", "backend": "jax"}}),
+                          # falsy values in the configuration still override the command line (documented: the file wins)
+                          ("cwd", {"delta": 0.0}), ("file", {"scheme": []}), ("cwd", {"stiff_states": []}), ("file", {"verbose": False})]},
     "ode2c": {"scheme": SCHEMES, "stiff": [[], ["x"], ["x", "y"]], "delta": [None, 0.5], "ru": [False, True], "format": [None, "none", "clang-format"],
               "to": [None, ".h", ".c"], "out": [None, "result", "sub/other.h"], "verbose": [False, True],
               "config": [None, ("cwd", {"delta": 0.25}), ("file", {"scheme": ["explicit_euler"]}), ("cwd", {"c": {"format": "none"}}), ("cwd", {"c": {"to": ".c"}}), ("cwd", {"c": {"format": "clang-format"}}),
                          ("cwd", {"python": {"format": "none"}}), ("cwd", {"stiff_states": ["y"], "scheme": ["hybrid_rush_larsen"]}), ("file", {"stiff_states": ["x"], "scheme": ["hybrid_rush_larsen", "explicit_euler"]}),
-                         ("file", {"verbose": True}), ("file", {"delta": 0.125, "scheme": ["generalized_rush_larsen"]})]},
+                         ("file", {"verbose": True}), ("file", {"delta": 0.125, "scheme": ["generalized_rush_larsen"]}),
+                         ("cwd", {"delta": 0.0}), ("file", {"scheme": []}), ("cwd", {"stiff_states": []})]},
     "convert": {"to": [".py", ".c", ".h", "py", "c"], "scheme": [[], ["explicit_euler"], ["hybrid_rush_larsen"], ["explicit_euler", "generalized_rush_larsen"]], "stiff": [[], ["x"]], "delta": [None, 0.5],
                 "ru": [False, True], "jax": [False, True], "out": [None, "result.py", "result.c", "result"]},
 }
